@@ -81,13 +81,14 @@ theorem C04_nonempty_mailbox_resolves (s : St) (i : Nat) (o : Op) (ho : s.ops[i]
 
 /-- a stream whose channel has no sender left gets its queued items and then `EndOfStream` -/
 theorem C04_closed_channel_ends (s : St) (c : Nat) (ch : Chan) (dl : Option Nat) (hc : s.chans[c]? = some ch)
+    (hack : (s.ops[ch.opIdx]?.bind (·.res)) = some .ack)      -- the stream exists: `start()` returned Ok
     (ha : ch.rxAlive = true) (hclosed : chanOpen s c = false) :
     (∀ it, ch.items[ch.taken]? = some it →
       step s (.recv c dl) = some ({ s with chans := s.chans.set c { ch with taken := ch.taken + 1 } }, .item (some it))) ∧
     (ch.items[ch.taken]? = none → step s (.recv c dl) = some (s, .closed)) := by
   constructor
-  · intro it hit; simp [step, hc, ha, hit]
-  · intro hn; simp [step, hc, ha, hn, hclosed]
+  · intro it hit; simp [step, hc, ha, hit, hack]
+  · intro hn; simp [step, hc, ha, hn, hclosed, hack]
 
 /-- Unbind: the request is written, then the write side is shut down and the sink closed -/
 theorem C04_unbind_closes (s : St) (i : Nat) (rest : List Nat) (o : Op) (hr : s.drv = .running)
